@@ -142,6 +142,9 @@ func (r *renderer) simple(s *Stmt) string {
 		}
 		return "tr.Ev(" + strings.Join(as, ", ") + ")"
 	case "decl":
+		if s.T == "pair" {
+			return s.Name + ", " + s.Name2 + " := " + r.expr(s.E) + ", 7"
+		}
 		return s.Name + " := " + r.expr(s.E)
 	case "assign":
 		return s.Name + " " + s.Op + " " + r.expr(s.E)
@@ -230,6 +233,9 @@ func (r *renderer) stmt(s *Stmt) {
 			r.w("%s", r.simple(s))
 		}
 		r.w("_ = %s", s.Name)
+		if s.T == "pair" {
+			r.w("_ = %s", s.Name2)
+		}
 	case "var":
 		r.w("var %s %s", s.Name, s.T)
 		r.w("_ = %s", s.Name)
